@@ -3,6 +3,7 @@ import Qryn.Proofs.TraceQLWf
 import Qryn.Proofs.TraceQLPortions
 import Qryn.Proofs.TraceQLTags
 import Qryn.Proofs.TraceQLGrammar
+import Qryn.Proofs.TraceQLAll
 import Qryn.Gen.TraceQLOps
 /-! # C11 — the SQL generated for TraceQL selects exactly the traces the query describes
 
@@ -300,6 +301,17 @@ def plan_all_traces_full : Prop :=
       (∀ m, (∃ s ∈ d.spansT, s.traceId = m ∧ spanInWindow c s = true) → m ∉ K.map (·.1) →
         K.length = c.limit.toNat ∧ ∀ k ∈ K, allTraceRec c d m ≤ allTraceRec c d k.1) ∧
       (evalStmtJ o ao (d.toDb c) S).map (fun r => r.take 5) = (assemble K d.spansT (some c.limit.toNat)).map TraceOut.row
+
+/-- **all_traces_choice** (`{}`, the part that decides which traces come back): the first sub-query of
+    `AttrlessConditionPlanner.Process` — `trace_ids`, to which every later sub-query and the final join are restricted — returns a
+    choice of the `limit` traces with the newest span-table row inside `[start, end)`: no trace twice, only traces with a span
+    inside the window, a trace left out means `limit` were picked and none of them is older, newest first (after fix 373aa96; before
+    it a trace was ranked by an arbitrary one of its spans and a span starting at `end` could take a place). -/
+theorem all_traces_choice (o : Oracles) (ao : AggOracles) (c : Ctx) (d : TraceDb) (env : Env) (htab : TablesDistinct c) :
+    (attrless c).withs.head? = some (.named "trace_ids", traceIdsAll c) ∧
+    ∃ A : List Bytes, evalSelG o ao (d.toDb c) false env (traceIdsAll c) = A.map (fun t => [("trace_id", Val.str t)]) ∧
+      IsTopN (allTraceRec c d) (InWindowTrace c d) c.limit.toNat A :=
+  ⟨attrless_trace_ids c, TraceQL.all_traces_choice o ao c d env (toDb_traces d c htab).2⟩
 
 /-! ## portions -/
 
